@@ -141,11 +141,15 @@ func Sub(fs FS, dir string) (FS, error) {
 	if fs, ok := fs.(SubFS); ok {
 		return fs.Sub(dir)
 	}
-	if fs, ok := fs.(MountFS); ok {
-		mountFS, subPath := fs.Mount(dir)
-		fs, err := Sub(mountFS, subPath)
-		return fs, stripErrPathPrefix(err, dir, subPath)
+	if fs, ok := fs.(*subFS); ok {
+		// a view of a view is a view of the original FS
+		if !ValidPath(dir) {
+			return nil, &PathError{Op: "sub", Path: dir, Err: ErrInvalid}
+		}
+		_, subPath := fs.Mount(dir)
+		return Sub(fs.rootFS, subPath)
 	}
+	// Any other MountFS is wrapped as a whole: resolving 'dir' to one of its file systems here would bypass mounts nested below 'dir'.
 	return newSubFS(fs, dir)
 }
 
